@@ -123,7 +123,7 @@ PLANS = {
         "mc": {"quick": [{"module": "MCEvents", "cfg": "cfg/MCEvents.quick.cfg", "emit_cases": "cases.ndjson"}],
                "thorough": [{"module": "MCEvents", "cfg": "cfg/MCEvents.thorough.cfg", "timeout": 3400, "emit_cases": "cases.ndjson"}]},
         "drive": {"quick": [{"args": ["events", "-cases", "{S}/cases.ndjson", "-exh", "1", "-exhmax", "150", "-n", "700", "-depth", "4",
-                                      "-seed", "{seed}", "-progevery", "6"]}],
+                                      "-seed", "{seed}", "-progevery", "2"]}],
                   "thorough": [{"args": ["events", "-cases", "{S}/cases.ndjson", "-exh", "2", "-exhmax", "5000", "-n", "20000", "-depth", "5",
                                          "-seed", "{seed}", "-progevery", "40"]}]},
         "judge": {"module": "JudgeEvents", "cfg": "JudgeEvents.cfg"},
